@@ -1,34 +1,60 @@
 //! C17 — closing or losing a connection at any moment ends it cleanly and visibly.
 //!
 //! Engine E5 (crash-point enumeration on real loopback).  Every case is one execution of two
-//! real `PeerConnection`s (A = offerer, B = answerer) on 127.0.0.1 inside a PRIVATE tokio
-//! runtime (2 workers), so `Handle::metrics().num_alive_tasks()` counts only that run's tasks.
+//! real `PeerConnection`s (A = offerer, B = answerer; video track A->B, in WebRtc mode also one
+//! negotiated and one in-band data channel) on 127.0.0.1 inside a PRIVATE tokio runtime
+//! (2 workers), so `Handle::metrics().num_alive_tasks()` counts only that run's tasks.
 //!
 //! Enumerated space (stated, finite, enumerated completely — `exhaustive: true` for the tier):
-//!   quick    : mode {WebRtc, Srtp, Rtp} x phase boundary (10 in WebRtc, 8 in Srtp/Rtp: those
-//!              that exist) x event {close, drop, ice-stop, blocked-close} x acting side {A, B}.
-//!              The event "peer close()" (and peer drop / peer going silent) is the SAME run seen
-//!              from the other side: every run judges the acting side AND the observing side
-//!              (signatures carry event=peer-<event> for failures on the observing side).
-//!   thorough : quick + every datagram boundary k <= K (K measured per mode in a fault-free run
+//!   quick    : mode {WebRtc, Srtp, Rtp} x phase boundary observable through the public API
+//!              (WebRtc 11: created, offer-made, gathered, offer-applied, answer-applied,
+//!              ice-connected, dtls-connected, channel-open, media-flowing, renegotiating,
+//!              renegotiated; Srtp/Rtp 9: no ICE/DTLS/channel points, `connected` instead)
+//!              x event {close, drop, ice-stop (public ice_transport().stop()), blocked-close
+//!              (sender blocked on a full SCTP window, then close)} x acting side {A, B}.
+//!              The events "peer close()", "peer dropped", "peer went silent" are the SAME runs
+//!              seen from the other side: every run judges the acting side AND the observing
+//!              side (signatures carry event=peer-<event> for failures on the observing side).
+//!   thorough : quick + every datagram boundary k <= K (K measured per mode in fault-free runs
 //!              through a harness-owned UDP relay on 127.0.0.1 that forwards unchanged and
-//!              counts) x event {close, drop, ice-stop, silent} x acting side, + pairs of events
-//!              at every phase boundary in both orders ({close,close} on both sides,
-//!              {close,drop}, {ice-stop,close}, ...).
+//!              counts; the relay holds further datagrams while the event is fired)
+//!              x event {close, drop, ice-stop, silent (relay drops everything)} x acting side,
+//!              + 10 ordered pairs of events at every phase boundary (both sides closing,
+//!              close then drop, ice-stop then close, ...).
+//!   (peer SCTP ABORT/SHUTDOWN are exercised at transport level on the simulator, not here.)
 //!
 //! Process structure: the driver re-executes itself as N worker children (`--worker`); a child
 //! runs its cases strictly one after another, so the process-wide socket count
 //! (/proc/self/fd entries that are sockets) is exact per run; parallelism is across children.
-//! A failing case is re-run three times ALONE (no other child active); it is a violation only
-//! if it fails all three times with the same kind, otherwise it is listed as FLAKY.
 //!
-//! Oracle (exactly the property text): see `judge_*` below and the `assumptions` in evidence.
+//! False-alarm control: a failing (point, event, mode) whose signature is not a listed known
+//! finding is re-run three times ALONE (one child, nothing else running); it is a violation
+//! only if it fails every time with the same kind, otherwise it is listed as FLAKY in the
+//! evidence.  Confirmation goes round-robin over failure classes, most systematic case first;
+//! in the quick tier a time cap applies after every class has had one candidate (the rest is
+//! listed as unconfirmed; the check already fails then).
+//!
+//! Oracle (the property text): within GRACE (2 s; for a peer that can only learn of the loss
+//! through ICE timeouts: the configured, shortened timeouts + GRACE) the side on which the event
+//! happened — and, where a lower layer can tell it, the peer — reports a terminal peer state
+//! (Failed/Closed) and a disconnect reason; every data channel that had seen Open observes Close
+//! exactly once and then recv() -> None; calls pending at the event (wait_for_connected,
+//! PeerConnection::recv, DataChannel::recv, remote track recv, a blocked send_data, the set-up
+//! call in flight at a datagram boundary) and subsequent calls (send_data, create_offer,
+//! wait_for_connected) return; an explicit close() afterwards is harmless and a second close()
+//! changes nothing; after every handle is dropped the private runtime's num_alive_tasks() and
+//! the process's socket count return to their pre-run values.  Tolerances are listed in the
+//! evidence `assumptions`.
+//!
+//! `--replay <file>` re-runs the stored case alone twice and exits 1 if it fails both times.
+//! Debugging: `c17 --one '<case json>'` prints the trace of one run; env C17_FILTER, C17_KMAX,
+//! C17_WORKERS, C17_DUMP.
 use rustrtc::media::MediaStreamTrack;
 use rustrtc::media::frame::{MediaSample, VideoFrame};
 use rustrtc::transports::sctp::{DataChannel, DataChannelConfig, DataChannelEvent};
 use rustrtc::{
     DisconnectReason, IceConnectionState, MediaKind, PeerConnection, PeerConnectionEvent,
-    PeerConnectionState, RtcConfiguration, RtpCodecParameters, SdpType, SessionDescription,
+    PeerConnectionState, RtcConfiguration, RtpCodecParameters, SessionDescription,
     SignalingState, TransceiverDirection, TransportMode,
 };
 use serde_json::{Value, json};
@@ -1573,12 +1599,7 @@ fn run_case(case: &Case) -> Value {
     let live: Arc<Mutex<BTreeMap<String, String>>> = Arc::new(Mutex::new(BTreeMap::new()));
     let (l1, l2) = (live.clone(), live.clone());
     *LIVE_TASKS.lock().unwrap() = Some(live.clone());
-    // Srtp: one worker thread (plus the driving thread). With two, the answerer's transport
-    // start (triggered inside set_remote_description) races set_local_description(answer) and
-    // fails with "Missing crypto attributes for SDES" whenever the idle worker steals the
-    // woken loop task first — a connect defect outside C17 that would make crash points
-    // unreachable under machine load.
-    let nworkers = std::env::var("C17_RT_WORKERS").ok().and_then(|v| v.parse().ok()).unwrap_or(if case.mode == "Srtp" { 1 } else { 2 });
+    let nworkers = std::env::var("C17_RT_WORKERS").ok().and_then(|v| v.parse().ok()).unwrap_or(2usize);
     let rt = match tokio::runtime::Builder::new_multi_thread()
         .worker_threads(nworkers)
         .enable_all()
@@ -2133,7 +2154,7 @@ fn main() {
     rep.set("confirmed_violations", confirmed);
     rep.set("known_finding_case_hits", n_known);
     rep.set("notice_deferred_to_thorough", results.iter().map(|v| v["obs"]["notice_deferred"].as_u64().unwrap_or(0)).sum::<u64>());
-    rep.set("setup_repeats_srtp_race", results.iter().map(|v| v["setup_attempts"].as_u64().unwrap_or(1).saturating_sub(1)).sum::<u64>());
+    rep.set("setup_repeats", results.iter().map(|v| v["setup_attempts"].as_u64().unwrap_or(1).saturating_sub(1)).sum::<u64>());
     rep.set("flaky", json!(flaky));
     rep.set("unconfirmed_after_time_cap", json!(unconfirmed));
     rep.set("unreached", json!(unreached.iter().map(|i| json!({"case": cases[*i].to_json(), "why": verdict_kinds(&results[*i]).1})).collect::<Vec<_>>()));
@@ -2153,7 +2174,7 @@ fn main() {
     rep.assume("timeouts are shortened through RtcConfiguration (stun 0.5 s, nomination 0.8 s, ICE disconnect 1 s / failed 2 s / grace 0.3 s, SCTP RTO 0.1-1 s, sctp_max_buffered_amount 32 KiB); other values default");
     rep.assume("quick tier: a side that never reached Connected and does not end within the ICE notice budget is bounded only by rustrtc's constant 30 s DTLS handshake timeout; the quick tier counts it (notice_deferred_to_thorough) instead of waiting, the thorough tier waits 30 s + budget");
     rep.assume("PeerConnection::recv(), a remote track's recv() and recv() of a channel that never opened are judged once the side was ended by close()/drop or reports Closed; on a side that is only Failed they may stay pending until close()");
-    rep.assume("Srtp answerer set-up race (TransportStartFailed: Missing crypto attributes for SDES when the transport starts before set_local_description(answer); about 40 % of set-ups alone) is a connect defect outside C17: a set-up hitting it before the crash point is repeated (setup_repeats_srtp_race)");
+    rep.assume("a set-up that fails before the crash point for a reason unrelated to the event (seen before repo commit 65a069c: Srtp answerer TransportStartFailed 'Missing crypto attributes for SDES') is repeated, up to 6 times in the worker and 2 more rounds in the driver (setup_repeats); a point still unreached is machinery failure (exit 2), never a verdict");
     rep.assume("thread schedules are whatever the 2-worker runtime produces (not enumerated); peer SCTP ABORT/SHUTDOWN are exercised at transport level elsewhere");
     if outcomes.len() < 2 {
         vh::machinery_failure("fewer than 2 distinct outcomes: vacuous run");
